@@ -57,6 +57,12 @@ def run(chk):
                 if pos == nargs - 1 or tk in ("*", "max", "]", "="):
                     texts.append("vars { monetary $m = balance(%s) }\nsend $m (source = @a destination = @b)" % ", ".join(args))
                     texts.append("set_account_meta(%s)" % ", ".join(args))
+    # literals on the edges of machine words and digit counts, in every literal position, and the states passed through while typing them
+    import tricky
+    for t in tricky.literal_scripts(rng, chk.size(150, 2500)):
+        texts.append(t)
+        if rng.random() < 0.15:
+            texts += gen_check.all_prefixes(t)[-40:]
     texts = list(dict.fromkeys(texts))
     cases = [{"script": t, "positions": gen_check.all_positions(t, cap=(120 if chk.tier == "quick" else 400))} for t in texts]
     gos, models = A.analyze_both(cases)
